@@ -383,3 +383,22 @@ def eq_test(c):
         if m:
             return m.group(1), c[2][0], c[2][1]
     return None
+
+
+def scope_switch_edges(scope, pat, labels):
+    """Edges of switches inside the scope's region whose condition -- rendered in the API function's terms -- matches."""
+    rx = re.compile(pat)
+    labels = set(labels)
+    out = set()
+    reg = scope.region
+    b = scope.body
+    for bi in reg:
+        info = b.switch_info(bi)
+        if not info:
+            continue
+        if not rx.search(scope.rx(info[0])):
+            continue
+        for tgt, ls in info[1].items():
+            if ls and ls <= labels:
+                out.add((bi, tgt))
+    return out
